@@ -96,7 +96,7 @@ func (e *c06Env) encode(tc *c06Case) (stream []byte, ends []int, msgs []proto.Me
 		case "grpc", "web", "webtext":
 			pb, _ := proto.Marshal(m)
 			enc = wire.GRPCFrame(0, pb)
-		case "grpc-gzip":
+		case "grpc-gzip", "web-gzip":
 			pb, _ := proto.Marshal(m)
 			enc = wire.GRPCFrame(1, gzipBytes(pb))
 		case "grpc+json":
@@ -113,6 +113,10 @@ func (e *c06Env) encode(tc *c06Case) (stream []byte, ends []int, msgs []proto.Me
 		case "ws":
 			js, _ := protojson.Marshal(m)
 			enc = wsText(js)
+		case "ws-frag":
+			// every message in 2, 3 or 4 frames (text + continuation frames)
+			js, _ := protojson.Marshal(m)
+			enc = wsFrag(js, 2+i%3)
 		}
 		stream = append(stream, enc...)
 		ends = append(ends, len(stream))
@@ -132,7 +136,7 @@ func (e *c06Env) exec(tc *c06Case) c06Result {
 	}
 	m, impl := e.mux(0)
 	stream, ends, inMsgs := e.encode(tc)
-	if tc.Transport == "ws" {
+	if isWS(tc.Transport) {
 		stream = append(stream, wsClose(1000, "")...) // the client ends its stream by closing
 	}
 	var replies []proto.Message
@@ -164,7 +168,7 @@ func (e *c06Env) exec(tc *c06Case) c06Result {
 			}
 		}
 		onBoundary = onBoundary && atEnd
-		if tc.Transport == "ws" && len(ends) > 0 && dec > ends[len(ends)-1] || tc.Transport == "ws" && len(ends) == 0 {
+		if isWS(tc.Transport) && len(ends) > 0 && dec > ends[len(ends)-1] || isWS(tc.Transport) && len(ends) == 0 {
 			// cut inside the client's close frame: the connection dropped after the last
 			// message; either a clean end or an error is acceptable
 			onBoundary = true
@@ -201,6 +205,8 @@ func (e *c06Env) exec(tc *c06Case) c06Result {
 		res = doGRPC(m, full, "application/grpc+json", nil, body)
 	case "web":
 		res = doWeb(m, full, "application/grpc-web+proto", nil, body)
+	case "web-gzip":
+		res = doWeb(m, full, "application/grpc-web+proto", http.Header{"Grpc-Encoding": {"gzip"}}, body)
 	case "webtext":
 		// doWeb base64-encodes Data itself; hand it the already encoded (and truncated) text
 		res = doWebRaw(m, full, "application/grpc-web-text", body)
@@ -209,7 +215,7 @@ func (e *c06Env) exec(tc *c06Case) c06Result {
 		res = doHTTP(m, "POST", route, "", http.Header{"Content-Type": {"application/json"}}, body)
 	case "http-proto":
 		res = doHTTP(m, "POST", route, "", http.Header{"Content-Type": {"application/protobuf"}}, body)
-	case "ws":
+	case "ws", "ws-frag":
 		codec = "json"
 		res = doWS(m, wsRoute, "", nil, wireBytes, sc)
 	default:
@@ -252,7 +258,7 @@ func (e *c06Env) exec(tc *c06Case) c06Result {
 	}
 	if tc.Shape != "ss" {
 		switch {
-		case truncated && tc.Transport == "ws" && onBoundary:
+		case truncated && isWS(tc.Transport) && onBoundary:
 			// connection dropped between frames without a close frame: io.EOF or an error
 			if lg.RecvErr == nil {
 				return fail("end-of-stream-missing", "handler kept receiving after the connection dropped")
@@ -323,11 +329,11 @@ func (e *c06Env) exec(tc *c06Case) c06Result {
 		}
 	}
 	switch tc.Transport {
-	case "grpc", "grpc-gzip", "grpc+json", "web", "webtext":
+	case "grpc", "grpc-gzip", "grpc+json", "web", "web-gzip", "webtext":
 		if res.Status == nil || res.Status.Code != 0 {
 			return fail("final-status", fmt.Sprintf("want grpc-status 0, got %+v", res.Status))
 		}
-	case "ws":
+	case "ws", "ws-frag":
 		if res.WSClose == nil || (len(res.WSClose.Payload) > 0 && (res.Status == nil || res.Status.Code != 1000)) {
 			return fail("final-status", fmt.Sprintf("want close 1000, got %+v", res.Status))
 		}
@@ -483,16 +489,16 @@ func c06Bases(thorough bool) []c06Base {
 		seqs = append(seqs, []int{300})
 	}
 	outs := [][]int{{}, {0}, {3}, {3, 0, 70}}
-	for _, tr := range []string{"grpc", "grpc-gzip", "grpc+json", "web", "webtext", "http-json", "http-proto", "ws"} {
+	for _, tr := range []string{"grpc", "grpc-gzip", "grpc+json", "web", "web-gzip", "webtext", "http-json", "http-proto", "ws", "ws-frag"} {
 		for _, sh := range []string{"cs", "bidi", "pingpong", "ss"} {
-			if tr == "ws" && sh == "cs" {
+			if isWS(tr) && sh == "cs" {
 				continue // a WebSocket client can only end its stream by closing, which also ends the reply channel
 			}
 			for _, in := range seqs {
 				if sh == "ss" && len(in) != 1 {
 					continue
 				}
-				if tr == "ws" && sh == "bidi" && len(in) > 0 {
+				if isWS(tr) && sh == "bidi" && len(in) > 0 {
 					// batch bidi over WebSocket: replies after the client's close are undeliverable; use pingpong
 					continue
 				}
@@ -503,7 +509,7 @@ func c06Bases(thorough bool) []c06Base {
 					if sh != "ss" && sh != "cs" && !thorough && len(o) == 1 && len(in) > 2 {
 						continue
 					}
-					if tr == "ws" && sh == "bidi" && len(o) > 0 {
+					if isWS(tr) && sh == "bidi" && len(o) > 0 {
 						continue
 					}
 					out = append(out, c06Base{Transport: tr, Shape: sh, In: in, Out: o})
@@ -533,15 +539,17 @@ func (e *c06Env) streamLen(b c06Base) int {
 	if b.Transport == "webtext" {
 		return len(wire.EncodeWebText(s))
 	}
-	if b.Transport == "ws" {
+	if isWS(b.Transport) {
 		return len(s) + len(wsClose(1000, ""))
 	}
 	return len(s)
 }
 
+func isWS(transport string) bool { return transport == "ws" || transport == "ws-frag" }
+
 func runC06(c *Ctx) {
 	r := c.Run
-	r.Rule("transport{gRPC identity/gzip/+json, gRPC-web, gRPC-web-text, HTTP JSON stream, HTTP varint-delimited protobuf, HttpBody chunking (limits 4, 8, 64; uploads of every length 0..3·limit+1), AsHTTPBodyReader/Writer passthrough, WebSocket} × shape{client-, server-, bidi batch, bidi ping-pong} × client sequence (0..3 messages, payloads 0/1/5/300) × handler sequence (0..3 replies) × read schedule (all 2^(n-1) partitions for streams <= 10 (thorough 13) bytes; uniform chunk sizes, every single cut and every pair of cuts (bounded) beyond) × EOF convention × truncation at every offset followed by EOF or a connection error; states = (transport, bytes consumed, messages delivered); distinct = (transport, shape, sequence) bases")
+	r.Rule("transport{gRPC identity/gzip/+json, gRPC-web identity/gzip, gRPC-web-text, HTTP JSON stream, HTTP varint-delimited protobuf, HttpBody chunking (limits 4, 8, 64; uploads of every length 0..3·limit+1), AsHTTPBodyReader/Writer passthrough, WebSocket with whole and with fragmented (2-4 frames) messages} × shape{client-, server-, bidi batch, bidi ping-pong} × client sequence (0..3 messages, payloads 0/1/5/300) × handler sequence (0..3 replies) × read schedule (all 2^(n-1) partitions for streams <= 10 (thorough 13) bytes; uniform chunk sizes, every single cut and every pair of cuts (bounded) beyond) × EOF convention × truncation at every offset followed by EOF or a connection error; states = (transport, bytes consumed, messages delivered); distinct = (transport, shape, sequence) bases")
 	r.Assume("an empty client stream is sent as an empty chunked body (Content-Length unknown)", "client-streaming with a unary reply over WebSocket is excluded: the only way for a WebSocket client to end its stream is to close, which also ends the reply channel", "HTTP/2 flow control and real half-close are seen only in the conformance runs")
 	fullMax := 10
 	if c.Thorough() {
